@@ -42,8 +42,12 @@ V31MOD = V31 + "/MAV:N/MS:U"     # not equal to V31: two Modified metrics are gi
 # other look-alike letters, a lone surrogate (half an emoji, as json.loads yields it), an astral
 # character, NUL
 ODD = ["\u212a", "\u017f", "\u0130", "\u0131", "\uff21", "\u0410", "\ud83d", "\udc80", "\U0001f600", "\0"]
+V2ND = V2MIN + "/E:ND/RL:ND/RC:ND"      # equal to V2MIN and V2PERM: only Not Defined values are added
+# a v3 vector whose minor version is written with a digit that is not ASCII (full-width one, Arabic-Indic
+# zero): `\\d`, isdigit() and int() take them for 1 and 0, the grammar does not
+ODD_MINOR = ["CVSS:3.\uff11/AV:N/AC:L/PR:N/UI:N/S:U/C:H/I:H/A:L", "CVSS:3.\u0660/AV:N/AC:L/PR:N/UI:N/S:U/C:H/I:L/A:H"]
 ALPHABET = [V2MIN, V2OPT, V2PERM, V30, V31, V31OPT, V31X, V40, V2FULL, V2FULL_B, V31FULL, V31MOD] + NEAR + GLUE + \
-    ["_", "0", "²", "[", "]", "`", "^", "\\", "@", "'"] + ODD
+    ["_", "0", "²", "[", "]", "`", "^", "\\", "@", "'"] + ODD + [V2ND] + ODD_MINOR
 
 
 EXT = CLASS | set("3.01")      # a valid v2/v3 vector consists of these characters only
